@@ -67,12 +67,20 @@ def dynDeps (s : Sys) (t : Name) : List Name :=
 def C15_created_obey_full : Prop :=
   ∀ (inp : Input), trigB inp = true → ∀ s, Reach inp s → obeyOK (dynDeps s) inp.noAct s.events = true
 
-/-- **target**, full statement (NOT proved; monitor `targetOK` in the driver): after a regex placeholder of word `x`
-    was reset, either `x` is a registered target whose owner is a task_dep of the placeholder (so the producer and its
-    closure run before it), or the group still has loaders to try, or the run raised `notFound x`. -/
+/-- a `_regex_target…` placeholder of the initial table still carries its loader and has the word as its file_dep -/
+def rxWF (inp : Input) : Prop :=
+  ∀ n td g, lookup0 inp.tasks0 n = some td → td.rx = some g → td.loader ≠ none ∧ inp.gtarget g ∈ td.fileDep
+
+/-- **target**, structural core (NOT proved; the observable statement is the monitor `targetOK` of the driver, evaluated
+    on every implementation trace): in a state that did not raise, a regex placeholder of word `x` that was reset
+    (its loader is `DelayedLoaded`) either has the task that owns target `x` among its task_deps — so the producer and
+    its closure are processed before it — or other loaders of its group are still to be tried; and `notFound x` is
+    raised only while nobody has registered `x`. -/
 def C15_target_full : Prop :=
-  ∀ (inp : Input) (s : Sys), Reach inp s → ∀ n nd g, s.nodes n = some nd → nd.task.rx = some g →
-    nd.task.loader = none → ∃ o, s.targets (inp.gtarget g) = some o ∧ o ∈ nd.task.deps
+  ∀ (inp : Input), rxWF inp → ∀ (s : Sys), Reach inp s →
+    (∀ x, s.susp = .err (.notFound x) → s.targets x = none) ∧
+    ((∀ e, s.susp ≠ .err e) → ∀ n nd g, s.nodes n = some nd → nd.task.rx = some g → nd.task.loader = none →
+      (∃ o, s.targets (inp.gtarget g) = some o ∧ o ∈ nd.task.deps) ∨ s.gtasks g ≠ [])
 
 /-! ### non-vacuity: a static trigger `0`; one creator with `creates=[1, 2]` (two loader objects, `executed = 0`) that
     yields task 1 and task 2 (which depends on 1); a static task 3 depending on both placeholders, selected.  The
